@@ -28,7 +28,10 @@ Why(r) ==
 
 Allowed(r) == Why(r) = "none"
 Expected(r) == [why |-> Why(r), want |-> r.want]
-Explains(r) == <<>>
+(* the recorded deviation: a JSON literal nested 128 levels or deeper is refused by the JSON layer *)
+Explains(r) ==
+  IF "DEV_JSON_DEPTH_LIMIT_128" \in KnownDevs /\ Why(r) = "rejected" /\ r.kind = "lit" /\ NestDepth(r.text) >= 128
+  THEN <<"DEV_JSON_DEPTH_LIMIT_128">> ELSE <<>>
 NonTrivial(r) == r.kind # "bad" /\ Len(r.text) >= 4
 Unjudged(r) == FALSE
 
